@@ -116,9 +116,9 @@ Lemma dwf_arr o n :
 Proof.
   intros Hwo Hwn IH. apply vwf_arr_inv in Hwo.
   unfold DWF. rewrite vdiff_arr. unfold vdiff_array.
-  set (idx := vcompute_reorder_indices o n).
-  assert (Hlen : List.length idx = List.length n) by apply vreorder_indices_length.
-  assert (Hb : Forall (idx_ok (List.length o)) idx) by apply vreorder_indices_bound.
+  set (idx := vchoose o n).
+  assert (Hlen : List.length idx = List.length n) by apply vchoose_length.
+  assert (Hb : Forall (idx_ok (List.length o)) idx) by apply vchoose_bound.
   set (oc := negb (Nat.eqb (List.length o) (List.length idx)) || negb (order_is_identity 0 idx)).
   set (el := vdiff_elems o 0 (varr_subs n) idx).
   set (d := (if oc then [(dollar, VArr (vcompress idx))] else []) ++ el).
